@@ -69,6 +69,19 @@ Version == IF st.shSeen THEN SHVersion(st.sh) ELSE 0
 \* the server has sent everything the client needs to finish its side
 FlightComplete == st.shSeen /\ (IF Version = 772 THEN 20 \in st.seen ELSE 14 \in st.seen)
 Compliant == st.scn.mode = "compliant"
+\* ---- application settings: what the client must expose and send (u_handshake_client.go utlsReadServerParameters,
+\*      sendClientEncryptedExtensions); the client's EncryptedExtensions is read by the hooked server (H7)
+ClientSettingsFor(scn, proto) == IF scn.client_alps # "has" THEN <<>>
+                                 ELSE IF proto = <<104,50>> THEN <<67,76,78,84>>
+                                 ELSE IF proto = <<104,116,116,112,47,49,46,49>> THEN <<67,76,78,49>> ELSE <<>>
+ClientEEAlps(raw, cp) == LET ee == ParseEE(raw) IN
+                         LET I == {i \in DOMAIN ee : ~ee[i].bad /\ ee[i].type = cp} IN
+                         IF raw = <<>> \/ I = {} THEN <<-1>> ELSE ee[CHOOSE i \in I : TRUE].body
+AlpsProblems(scn, ev, v) ==
+     (IF ev.cok /\ v = 772 /\ ev.peer_alps # scn.alps_settings THEN {"server-settings-not-exposed"} ELSE {})
+  \cup (IF ev.cok /\ v = 772 /\ ClientEEAlps(ev.client_ee, scn.alps_cp) # ClientSettingsFor(scn, ev.cs.proto)
+        THEN {"client-settings-not-sent-as-configured"} ELSE {})
+  \cup (IF ev.cok /\ v < 772 /\ ev.peer_alps # <<>> THEN {"settings-accepted-below-1.3"} ELSE {})
 OnResult(ev) ==
   /\ st' = [st EXCEPT !.done = TRUE]
   /\ rej' = rej
@@ -88,6 +101,8 @@ OnResult(ev) ==
        \cup (IF Compliant /\ ev.cok /\ st.o.ok /\ ~ServerCanSelect(st.o1, st.scn) THEN Fail("calibration", "server-selected-what-the-model-excludes") ELSE {})
        \* agreement
        \cup (IF ev.cok /\ ev.sok THEN {<<st.sc, "agree", ToString(p)>> : p \in AgreeProblems(ev.cs, ev.ss, st.o, ev.cekm, ev.sekm)} ELSE {})
+       \* application settings (C22)
+       \cup (IF st.scn.alps_cp # 0 THEN {<<st.sc, "alps", ToString(p)>> : p \in AlpsProblems(st.scn, ev, Version)} ELSE {})
        \* the client's view never shows an unoffered value
        \cup (IF ev.cok /\ st.o.ok /\ (ev.cs.version \notin st.o.versions \/ ev.cs.suite \notin st.o.suites
                                       \/ (ev.cs.proto # <<>> /\ ev.cs.proto \notin st.o.alpn))
